@@ -798,10 +798,13 @@ def run_property(pid, tier, replay_path=None, only=None, nproc=None):
                          "unpatched code before anything is reported." % REPO),
             obligations=obligations, discharged=discharged,
             evaluations=obligations, distinct_nontrivial=len(distinct),
-            rule=("one evaluation = one solver query (assertion instance on one execution path of one "
-                  "harness instance); distinct = distinct (harness, bound parameters, assertion label, "
-                  "path) ; non-trivial = the two sides were not syntactically identical terms, so the "
-                  "solver had to decide it"),
+            rule=("one evaluation = one assertion instance on one execution path of one harness instance. It "
+                  "is discharged in one of three ways, counted separately: `syntactically_identical` (both "
+                  "sides are the same term), `polynomial_normal_form` (the difference reduces to the zero "
+                  "polynomial under z3's rewriter or modulo the square rules the engine has assumed: "
+                  "s^2 = 1 - c^2 of rotation parameters, sign^2 = 1, sqrt(x)^2 = x, Sin^2 = 1 - Cos^2), or an "
+                  "SMT query (all the rest; `distinct_nontrivial` counts distinct (harness, bound "
+                  "parameters, assertion label, path) among them)"),
             samples=samples if samples else [dict(note="no non-trivial query sample captured")],
             sat=nsat, unknown=nunknown, paths=total_paths, solver_s=round(solver_s, 3),
             syntactically_identical=trivial_total - nf_grand, polynomial_normal_form=nf_grand,
